@@ -90,6 +90,12 @@ def make_meta_objects(meta):
     from django.db import models
     indexes = []
     for ix in meta.get('indexes') or []:
+        if ix.get('lower'):
+            # functional index (hand-built cases only)
+            from django.db.models.functions import Lower
+            indexes.append(models.Index(Lower(ix['lower']),
+                                        name=ix['name']))
+            continue
         kw = {'fields': list(ix['fields']), 'name': ix['name']}
         if ix.get('condition'):
             kw['condition'] = q_from_spec(ix['condition'])
